@@ -20,7 +20,12 @@ Step ==
            \* a run that ends because nothing is left to do cannot leave a step of a ticker pending: its date is always
            \* reachable (also a period of infinity - virtual time does reach infinity)
            (IF e.ok /\ \E b \in Ids : \E j \in DOMAIN tk[b] : tk[b][j].wait /\ ~tk[b][j].neg /\ ~tk[b][j].exc
-            THEN Fail("C14.tick_never_came") ELSE UNCHANGED <<tk, bad>>)
+            THEN Fail("C14.tick_never_came")
+            \* ... nor can the simulation die of a kernel error under a ticker that is waiting for its next step
+            ELSE IF ~e.ok /\ F(F(e, "out", [k |-> "ok"]), "k", "ok") = "exc" /\ F(F(e, "out", [k |-> "ok"]), "internal", FALSE)
+                    /\ \E b \in Ids : \E j \in DOMAIN tk[b] : tk[b][j].wait /\ ~tk[b][j].neg /\ ~tk[b][j].exc
+            THEN Fail("C14.run_died_under_ticker")
+            ELSE UNCHANGED <<tk, bad>>)
         ELSE IF op # "tick" \/ a \notin Ids THEN UNCHANGED <<tk, bad>>
         ELSE LET i == e.i  st == tk[a][i] IN
         CASE e.e = "b" ->
